@@ -6,6 +6,8 @@ import (
 	"go/ast"
 	"go/parser"
 	"go/token"
+	"os"
+	"path/filepath"
 	"sort"
 	"strconv"
 	"strings"
@@ -26,6 +28,12 @@ type AsmImpl struct {
 	Assemble func(f *AsmFile) []byte
 	// Format runs the real file type's Format.
 	Format func(src []byte) ([]byte, error)
+	// AssembleFile runs the real file type's AssembleFile into path.
+	AssembleFile func(f *AsmFile, path string) error
+	// PackageRun runs the real DefaultPackage (v1) / SimpleTarget (v2) with the given header (passed with
+	// spare capacity), package documentation and two generators ("doc.go" without body, "other.go" with
+	// body) through ExecutePackage / ExecuteTarget into dir.
+	PackageRun func(header []byte, doc []byte, otherBody string, dir string) error
 }
 
 // sort the lines of the (single) import block: canonical form of the pre-format text
@@ -54,6 +62,49 @@ func importBlockLines(formatted string) []string {
 
 type asmDecl struct{ kind, name string }
 
+// DefaultPackage / SimpleTarget: header and package documentation reach the right files intact
+func asmPkgCase(impl AsmImpl, f []string, fail func(sig, what string)) string {
+	hdr, capExtra, doc, body := Unhex(f[2]), Atoi(f[3]), Unhex(f[4]), Unhex(f[5])
+	header := make([]byte, len(hdr), len(hdr)+capExtra)
+	copy(header, hdr)
+	dir, _ := os.MkdirTemp("", "verif-asm-")
+	defer os.RemoveAll(dir)
+	err := impl.PackageRun(header, []byte(doc), body, dir)
+	if err != nil {
+		fail("package-run-fails", fmt.Sprintf("header %q doc %q: run over valid contributions failed: %v", hdr, doc, Trunc(err.Error(), 300)))
+		return "ran"
+	}
+	for _, name := range []string{"doc.go", "other.go"} {
+		var content []byte
+		filepath.Walk(dir, func(p string, info os.FileInfo, e error) error {
+			if e == nil && !info.IsDir() && filepath.Base(p) == name {
+				content, _ = os.ReadFile(p)
+			}
+			return nil
+		})
+		want := strings.TrimRight(hdr, "\n")
+		if !bytes.HasPrefix(content, []byte(want)) {
+			fail("header-not-first", fmt.Sprintf("%s does not start with the header %q: %q", name, want, Trunc(string(content), 200)))
+		}
+		pf, perr := parser.ParseFile(token.NewFileSet(), name, content, parser.ParseComments)
+		if perr != nil {
+			fail("does-not-parse", fmt.Sprintf("%s does not parse: %v\n%s", name, perr, Trunc(string(content), 300)))
+			continue
+		}
+		if pf.Name.Name != "demo" {
+			fail("package-name", fmt.Sprintf("%s declares package %s", name, pf.Name.Name))
+		}
+		hasDoc := strings.Contains(string(content), strings.TrimSpace(doc))
+		if name == "doc.go" && doc != "" && !hasDoc {
+			fail("package-doc-missing", fmt.Sprintf("doc.go lacks the package documentation %q: %q", doc, Trunc(string(content), 300)))
+		}
+		if name != "doc.go" && doc != "" && hasDoc {
+			fail("package-doc-misplaced", fmt.Sprintf("%s carries the package documentation", name))
+		}
+	}
+	return "ran"
+}
+
 func AsmProperty(impl AsmImpl) Property {
 	exec1 := func(line string) (out string, fails []Failure) {
 		f := Fields(line)
@@ -63,9 +114,36 @@ func AsmProperty(impl AsmImpl) Property {
 				fails = append(fails, Failure{"panic", fmt.Sprintf("%s panics: %v", f[1], r)})
 			}
 		}()
+		fail := func(sig, what string) { fails = append(fails, Failure{sig, what}) }
+		if f[1] == "pkg" {
+			return asmPkgCase(impl, f, fail), fails
+		}
 		af := &AsmFile{Header: Unhex(f[2]), PkgName: Unhex(f[3]), Imports: UnhexList(f[4]), Vars: Unhex(f[5]), Consts: Unhex(f[6]), Body: Unhex(f[7])}
 		raw := impl.Assemble(af)
-		fail := func(sig, what string) { fails = append(fails, Failure{sig, what}) }
+		if f[1] == "afile" {
+			dir, _ := os.MkdirTemp("", "verif-asm-")
+			defer os.RemoveAll(dir)
+			path := filepath.Join(dir, "zz.go")
+			_, ferr := impl.Format(raw)
+			if B01(ferr != nil) != f[8] {
+				fail("facts-stale", "the format-fails flag in the line is stale (harness)")
+			}
+			err := impl.AssembleFile(af, path)
+			content, rerr := os.ReadFile(path)
+			if ferr != nil {
+				if err == nil {
+					fail("format-error-not-returned", "Format fails on the assembled text but AssembleFile returned nil")
+				}
+				if rerr != nil || !bytes.Equal(content, raw) {
+					fail("unformatted-text-not-written", fmt.Sprintf("Format failed; the file holds %q, the unformatted text is %q", Trunc(string(content), 200), Trunc(string(raw), 200)))
+				}
+				return "err=" + B01(err != nil) + " content=" + Hex(string(content)), fails
+			}
+			if err != nil {
+				fail("valid-input-does-not-format", fmt.Sprintf("AssembleFile failed on valid contributions: %v", err))
+			}
+			return "err=" + B01(err != nil), fails
+		}
 		// --- pre-format text: header first, package clause, blocks
 		if !bytes.HasPrefix(raw, []byte(af.Header)) {
 			fail("header-not-first", "the assembled text does not start with the header")
@@ -261,5 +339,24 @@ func asmGen(c *Ctx, impl AsmImpl) {
 		sort.Strings(feats)
 		c.Case([]string{Line("asm", "file", Hex(af.Header), Hex(af.PkgName), HexList(af.Imports), Hex(af.Vars), Hex(af.Consts), Hex(af.Body))},
 			Meta{Nontrivial: len(af.Imports) >= 2, Features: feats})
+		if it%4 == 0 {
+			// AssembleFile on a body that may not format: the unformatted text stays on disk, an error is returned
+			bf := *af
+			if len(bf.Imports) > 1 {
+				bf.Imports = bf.Imports[:1] // the unformatted text lists the import set in map order
+			}
+			if r.Chance(2, 3) {
+				bf.Body += r.Pick([]string{"func broken( {\n", "}}}\n", "var x = = 1\n", "func f() { return 1 +\n"})
+			}
+			_, ferr := impl.Format(impl.Assemble(&bf))
+			c.Case([]string{Line("asm", "afile", Hex(bf.Header), Hex(bf.PkgName), HexList(bf.Imports), Hex(bf.Vars), Hex(bf.Consts), Hex(bf.Body), B01(ferr != nil))},
+				Meta{Nontrivial: true, Features: []string{"assemblefile", "format-fails:" + B01(ferr != nil)}})
+		}
+		if it%4 == 1 {
+			hdr := r.Pick([]string{"// Code generated. DO NOT EDIT.\n\n", "/* hdr */", "/*\nCopyright.\n*/\n\n", "", "// h\n"})
+			doc := r.Pick([]string{"// Package demo has generated things.\n", "", "// Package demo.\n// More.\n"})
+			c.Case([]string{Line("asm", "pkg", Hex(hdr), Itoa(r.Pick2(0, 64, 256)), Hex(doc), Hex("func F() {}\n"))},
+				Meta{Nontrivial: true, NoModel: true, Features: []string{"default-package-headers"}})
+		}
 	}
 }
